@@ -462,3 +462,106 @@ class RawTU(object):
 
     def cleanup(self):
         shutil.rmtree(self.dir, ignore_errors=True)
+
+
+# --------------------------------------------------------------------------------- libFuzzer target (C07 thorough)
+FUZZ_HEAD = r'''
+#include "m.ppf.hpp"
+#include <cstdio>
+#include <cstdlib>
+#include <cstring>
+#include <vector>
+using namespace prophy::generated;
+
+template <class T, prophy::endianness E> static void one(const uint8_t* in, size_t n) {
+    // exact-size heap copy: reads past data+size hit an ASan red zone
+    uint8_t* data = new uint8_t[n];
+    if (n) memcpy(data, in, n);
+    T x;
+    bool ok = x.template decode<E>(data, n);
+    delete[] data;
+    if (ok) {
+        size_t gbs = x.get_byte_size();
+        std::vector<uint8_t> enc = x.template encode<E>();
+        if (gbs != n || enc.size() != n) {
+            fprintf(stderr, "ORACLE: decode returned true for %zu bytes, get_byte_size=%zu, re-encoded=%zu\n",
+                    n, gbs, enc.size());
+            abort();
+        }
+    }
+}
+'''
+
+
+def gen_fuzz_target(schema):
+    comps = schema.composites()
+    src = [FUZZ_HEAD, 'extern "C" int LLVMFuzzerTestOneInput(const uint8_t* data, size_t size) {',
+           '    if (size < 2) return 0;', '    unsigned t = data[0] %% %d; unsigned e = data[1] %% 3;' % len(comps),
+           '    const uint8_t* p = data + 2; size_t n = size - 2;', '    switch (t) {']
+    for i, c in enumerate(comps):
+        src.append('    case %d: if (e == 0) one<%s, prophy::little>(p, n); else if (e == 1) one<%s, prophy::big>(p, n); '
+                   'else one<%s, prophy::native>(p, n); break;' % (i, c.name, c.name, c.name))
+    src.append('    }\n    return 0;\n}')
+    return '\n'.join(src)
+
+
+class FuzzTU(object):
+    """schema -> prophyc --cpp_full_out -> libFuzzer binary (clang++, ASan+UBSan)."""
+
+    def __init__(self, schema, workdir=None):
+        self.schema = schema
+        self.dir = workdir or pyh.fresh_dir('fz')
+        self.text = schema.to_prophy()
+        src = os.path.join(self.dir, 'm.prophy')
+        with open(src, 'w') as f:
+            f.write(self.text)
+        pyh.run_prophyc([src, '--cpp_full_out', self.dir])
+        with open(os.path.join(self.dir, 'fuzz.cpp'), 'w') as f:
+            f.write(gen_fuzz_target(schema))
+        self.exe = os.path.join(self.dir, 'fuzz')
+        cmd = ['clang++', '-std=c++11', '-O1', '-g1', '-w', '-Wno-c++11-narrowing', '-fsanitize=fuzzer,address,undefined',
+               '-fno-sanitize=enum', '-fno-sanitize-recover=undefined', '-I', include_dir(), '-I', self.dir,
+               'fuzz.cpp', 'm.ppf.cpp', '-o', self.exe]
+        p = subprocess.run(cmd, cwd=self.dir, stdout=subprocess.PIPE, stderr=subprocess.STDOUT, timeout=900)
+        if p.returncode != 0:
+            raise BuildFailed('clang++ fuzz target', p.stdout.decode(errors='replace'))
+
+    def run(self, seed, runs, seeds=(), max_len=256, max_time=0):
+        """-> (clean: bool, info dict).  `seeds`: list of byte strings for the initial corpus (may be empty)."""
+        corpus = os.path.join(self.dir, 'corpus')
+        art = os.path.join(self.dir, 'art')
+        shutil.rmtree(corpus, ignore_errors=True)
+        shutil.rmtree(art, ignore_errors=True)
+        os.makedirs(corpus)
+        os.makedirs(art)
+        for i, s in enumerate(seeds):
+            with open(os.path.join(corpus, 'seed%d' % i), 'wb') as f:
+                f.write(s)
+        env = dict(os.environ)
+        env['ASAN_OPTIONS'] = 'max_allocation_size_mb=64:allocator_may_return_null=0:detect_leaks=0'
+        env['UBSAN_OPTIONS'] = 'print_stacktrace=0:halt_on_error=1'
+        cmd = [self.exe, '-runs=%d' % runs, '-seed=%d' % (seed or 1), '-max_len=%d' % max_len, '-timeout=60',
+               '-rss_limit_mb=3000', '-malloc_limit_mb=64', '-artifact_prefix=%s/' % art, '-print_final_stats=1',
+               corpus]
+        if max_time:
+            cmd.insert(1, '-max_total_time=%d' % max_time)
+        p = subprocess.run(cmd, stdout=subprocess.PIPE, stderr=subprocess.PIPE, env=env,
+                           timeout=(max_time or 3600) + 600)
+        err = p.stderr.decode(errors='replace')
+        execs = 0
+        for l in err.splitlines():
+            if l.startswith('stat::number_of_executed_units:'):
+                execs = int(l.split()[-1])
+        info = {'execs': execs, 'rc': p.returncode}
+        arts = sorted(os.listdir(art))
+        if p.returncode != 0 or arts:
+            data = b''
+            if arts:
+                with open(os.path.join(art, arts[0]), 'rb') as f:
+                    data = f.read()
+            info.update(artifact=data, summary=crash_summary(err), stderr=err[-3000:])
+            return False, info
+        return True, info
+
+    def cleanup(self):
+        shutil.rmtree(self.dir, ignore_errors=True)
